@@ -91,6 +91,11 @@ def main():
                 except Exception as exc:
                     rec.ev('crash', prop=a.prop, call='restored-lattice', args=str(b), exc=type(exc).__name__,
                            msg=str(exc)[:300])
+            nconc = len(rec._members) if rec._members is not None else 0
+            if b % 4 == 1 and 0 < nconc <= 150 and getattr(rec, 'ctx', None) is not None \
+                    and fams & {'C05', 'C06', 'C07', 'C08', 'C09', 'C10', 'C18'}:
+                # the caller keeps only the concept objects: context and lattice are dropped and collected
+                rec_ctx.drive_orphans(rec, table, b, fams, rng)
             stats['behaviours'] += 1
             stats['exhaustive_tables'] += (table.tag[:2] == 'ex' and table.tag[2:3].isdigit())
             key = (table.n, table.m, tuple(map(tuple, table.rows)))
@@ -99,8 +104,7 @@ def main():
                 seen.add(key)
                 stats['nontrivial'] += 1
             stats['max_width'] = max(stats['max_width'], table.n, table.m)
-            if rec._members is not None:
-                stats['max_concepts'] = max(stats['max_concepts'], len(rec._members))
+            stats['max_concepts'] = max(stats['max_concepts'], nconc)
             if len(stats['samples']) < 2 and ncross:
                 stats['samples'].append({'b': b, 'n': table.n, 'm': table.m, 'rows': table.rows, 'tag': table.tag})
     print(json.dumps(stats))
